@@ -9,7 +9,7 @@ plan = {
   "dc": {"omit_l2_at_31": bool, "skew_ticks": int, "domain": str, "forest": str, "pad_mode": str, "header_sign": bool, "after_response": "rst"|"eof", "byz": {}},
   "ctx": {"kind": "stub", "legs": 2, "sig": 16} | {"kind": "ntlm"} | {"kind": "negotiate"},
   "caller_sids": [sid, ...],
-  "delivery": {...} | None, "latency_us": [lo, hi], "use_dns": bool, "conn_flap": n (the first n connects of every operation to the key service port are refused), "cred_fault": "stub-raise"|"ntlm-unknown-user"|"kerberos-not-installed" (credential acquisition fails),
+  "delivery": {...} | None, "latency_us": [lo, hi], "use_dns": bool, "short_writes": {"max": n} (socket.send() takes at most n bytes per call), "conn_flap": n (the first n connects of every operation to the key service port are refused), "cred_fault": "stub-raise"|"ntlm-unknown-user"|"kerberos-not-installed" (credential acquisition fails),
   "ops": [ {"op": "load_key", "rk": i},
            {"op": "protect", "fl": "sync"|"async", "sid": s, "rk": i|None, "net": "online"|"offline", "data": n, "group": g|None},
            {"op": "unprotect", "fl": .., "net": .., "blob": {"rk": i, "sid": s, "pos": [l0,l1,l2], "mode": "nonce"|"pub", "trailing": bool, "data": n}
@@ -206,6 +206,8 @@ def execute_plan(plan: dict, kdf_limit: int = 300, keep_events: bool = False) ->
                      byz=dcc.get("byz"), gkdi_port=dcc.get("gkdi_port", 49667), lib_codecs=bool(dcc.get("lib_codecs")))
     tr.dc = dc
     world.default_delivery = plan.get("delivery")
+    if plan.get("short_writes"):
+        world.short_writes = dict(plan["short_writes"])  # socket.send() takes at most that many bytes per call (sendall is unaffected)
     if plan.get("entropy_device"):
         world.entropy_device = dict(plan["entropy_device"])  # /dev/urandom opened as a file: "eof" | "short" reads (nothing in the unchanged library opens it)
     cache = dpapi_ng.KeyCache()
